@@ -1,7 +1,7 @@
 //! Positive controls: each monitor must be able to fire.
 use crate::arena::Place;
 use crate::gen::Kind;
-use crate::obs::{observe, Call, Ctx, Slot};
+use crate::obs::{Ctx, Obs, Slot};
 use crate::oracles as orc;
 use crate::types::*;
 
@@ -35,13 +35,46 @@ pub fn heap_oob() -> ! {
     std::process::exit(0)
 }
 
-/// Hand-made wrong observations must be rejected by the oracle functions.
+/// A hand-made observation equal to what the reference spec says (the
+/// canaries must not depend on the parser under test being correct).
+fn handmade(entry: Entry, data: &[u8], cap: usize) -> Obs {
+    let (res, info) = crate::spec::run(entry, data, 0, cap);
+    let mut slots: Vec<Slot> = (0..cap).map(|_| Slot::Sent).collect();
+    if res.st.is_complete() {
+        for (i, (n, v)) in res.headers.iter().enumerate() {
+            slots[i] = Slot::Hdr(*n, *v);
+        }
+    }
+    let hdr_len = if res.st.is_complete() { res.headers.len() } else { cap };
+    let _ = info;
+    Obs {
+        res,
+        entry,
+        cfg: 0,
+        cap,
+        hdr_len,
+        hdr_at_array: true,
+        hdr_at_own: false,
+        own_intact: true,
+        slots,
+        exposed_poison: false,
+        panic: None,
+        ctr: Default::default(),
+        allocs: 0,
+        forced_ok: true,
+        strs_utf8: true,
+    }
+}
+
+/// Hand-made wrong observations must be rejected by the oracle functions
+/// (and the matching right ones accepted).
 pub fn oracles() -> Vec<(&'static str, bool)> {
+    crate::obs::install_panic_hook();
     let mut out = Vec::new();
-    let mut ctx = Ctx::new();
     let data = b"GET /p HTTP/1.1\r\nHost: h\r\nA: b\r\n\r\nbody";
-    let buf = ctx.place(data, Place::End);
-    let good = observe(&mut ctx, Call::new(Entry::R2, 0, 8), buf);
+    let buf: &[u8] = data;
+    let good = handmade(Entry::R2, data, 8);
+    out.push(("good_complete", good.res.st == St::Complete(34) && good.res.headers.len() == 2));
     out.push(("good_c03", orc::c03(Kind::Req, buf, &good).is_none()));
     out.push(("good_c04", orc::c04(buf, &good).is_none()));
     out.push(("good_c05", orc::c05(Kind::Req, buf, &good).is_none()));
@@ -80,16 +113,14 @@ pub fn oracles() -> Vec<(&'static str, bool)> {
     out.push(("spec_start_line", orc::vs_spec(buf, &o, &s, orc::Cmp { class_only_err: true, start_line: true, headers: false }).is_some()));
     // error kind
     let bad = b"GET /p HTTP/1.1\r\nHo st: h\r\n\r\n";
-    let bbuf = ctx.place(bad, Place::End);
-    let mut o = observe(&mut ctx, Call::new(Entry::R2, 0, 8), bbuf);
+    let mut o = handmade(Entry::R2, bad, 8);
     let (s2, _) = crate::spec::request(bad, 0, 8);
-    out.push(("good_c10", orc::c10(&o, &s2).is_none()));
+    out.push(("good_c10", s2.st == St::Err(ErrK::HeaderName) && orc::c10(&o, &s2).is_none()));
     o.res.st = St::Err(ErrK::HeaderValue);
     out.push(("c10_kind", orc::c10(&o, &s2).is_some()));
     // storage
-    let buf = ctx.place(data, Place::End);
-    let o3 = observe(&mut ctx, Call::new(Entry::R1, 0, 4), buf);
-    let am = observe(&mut ctx, Call::new(Entry::R1, 0, 16), buf);
+    let o3 = handmade(Entry::R1, data, 4);
+    let am = handmade(Entry::R1, data, 16);
     out.push(("good_c17", orc::c17(buf, &o3, &am).is_none()));
     let mut o = o3.clone();
     o.slots[3] = Slot::Hdr(Loc::In(0, 1), Loc::In(1, 1));
@@ -97,11 +128,15 @@ pub fn oracles() -> Vec<(&'static str, bool)> {
     let mut o = o3.clone();
     o.hdr_len = 1;
     out.push(("c17_count", orc::c17(buf, &o, &am).is_some()));
-    let o1 = observe(&mut ctx, Call::new(Entry::R1, 0, 1), buf);
+    let mut o1 = handmade(Entry::R1, data, 1);
+    o1.slots[0] = Slot::Hdr(Loc::In(17, 4), Loc::In(23, 1));
     out.push(("good_c17_toomany", o1.res.st == St::Err(ErrK::TooManyHeaders) && orc::c17(buf, &o1, &am).is_none()));
     let mut o = o1.clone();
     o.res.st = St::Partial;
     out.push(("c17_capacity_law", orc::c17(buf, &o, &am).is_some()));
+    let mut o = o1.clone();
+    o.hdr_len = 0;
+    out.push(("c17_not_restored", orc::c17(buf, &o, &am).is_some()));
     // allocation counter
     let a0 = crate::alloc_count::events();
     let bx = std::hint::black_box(Box::new(5u64));
